@@ -570,6 +570,17 @@ func genGrammarCase(t *rapid.T) Case16 {
 	return Case16{In: hex.EncodeToString(prefix), Fill: fill, Seed: rapid.Uint64().Draw(t, "seed")}
 }
 
+// genGroups: how many groups a run has - 1..12, or (one in eight) as many as exhaust a shift counter of 7, 8, 15 or 16
+// bits that grows by 7 per group: 2^w/7 -2..+2 (18, 36, 4681, 9362 bytes; the runs of 2^31/7 bytes are enumerated by
+// TestC16WordRuns).
+func genGroups(t *rapid.T) int {
+	if rapid.IntRange(0, 7).Draw(t, "wordRun") != 0 {
+		return rapid.IntRange(1, 12).Draw(t, "groups")
+	}
+	w := rapid.SampledFrom([]int{7, 8, 8, 15, 16}).Draw(t, "word")
+	return (1<<w)/7 + rapid.IntRange(-2, 2).Draw(t, "wordDelta")
+}
+
 // genPrefix: a length prefix in front of a body of bodyLen bytes.
 func genPrefix(t *rapid.T, bodyLen int) []byte {
 	var out []byte
@@ -598,8 +609,8 @@ func genPrefix(t *rapid.T, bodyLen int) []byte {
 			pad = rapid.IntRange(1, 4).Draw(t, "pad")
 		}
 		out = PutUvarint(nil, v, pad)
-	case 5, 6: // 1..12 arbitrary groups, the last one terminating (or not)
-		g := rapid.IntRange(1, 12).Draw(t, "groups")
+	case 5, 6: // 1..12 arbitrary groups (one in eight: 2^w/7 -2..+2 groups), the last one terminating (or not)
+		g := genGroups(t)
 		for i := 0; i < g; i++ {
 			b := rapid.Byte().Draw(t, "g") | 0x80
 			out = append(out, b)
@@ -608,7 +619,7 @@ func genPrefix(t *rapid.T, bodyLen int) []byte {
 			out[g-1] &= 0x7f
 		}
 	default: // all-0x80 / all-0xff runs with a chosen last group
-		g := rapid.IntRange(1, 12).Draw(t, "groups")
+		g := genGroups(t)
 		fill := rapid.SampledFrom([]byte{0x80, 0xff}).Draw(t, "fill")
 		for i := 0; i < g; i++ {
 			out = append(out, fill)
@@ -1284,10 +1295,75 @@ func TestC16LongRuns(t *testing.T) {
 	st.SetExhaustive("long_continuation_runs", map[string]any{"run_lengths": sizes, "cases": ran, "shards": shards})
 }
 
+// TestC16WordRuns: runs of continuation bytes whose length crosses a word-size boundary of a shift counter. A decoder
+// of 7-bit groups adds 7 to its shift per continuation byte; counted in a type of w bits (int8 .. uint32 - a signed
+// type is exhausted at w-1) the shift wraps, or turns negative (Go panics on a negative shift amount), after 2^w/7
+// bytes of a number that goes on: 18, 36, 4681, 9362, 306783378 and 613566756 bytes. Enumerated: run = 2^w/7 -2..+2 x
+// first byte {none, 85, ff} x run byte {80, ff, 81, c3} x tail {unterminated, 00, 7f, 01+2 bytes, 00+a body of 5} for
+// w = 7, 8, 15, 16; w = 31 (293 MiB, one arena, one presentation per case): quick two cases - the longest run
+// unterminated and terminated -, thorough every length -2..+2 unterminated and terminated, three run bytes; w = 32
+// (585 MiB) thorough only.
+func TestC16WordRuns(t *testing.T) {
+	st := vstat.For("C16")
+	shard, shards := vstat.Shard()
+	heads := []string{"", "85", "ff"}
+	bs := []int{0x80, 0xff, 0x81, 0xc3}
+	tails := []string{"", "00", "7f", "014142", "006162636465"}
+	var cases []Case16L
+	for _, w := range []int{7, 8, 15, 16} {
+		for d := -2; d <= 2; d++ {
+			for _, h := range heads {
+				for _, b := range bs {
+					for _, tl := range tails {
+						cases = append(cases, Case16L{Head: h, Run: (1<<w)/7 + d, B: b, Tail: tl})
+					}
+				}
+			}
+		}
+	}
+	small := len(cases)
+	n31 := (1 << 31) / 7
+	if vstat.Thorough() {
+		for d := -2; d <= 2; d++ {
+			b := bs[(d+2)%3]
+			cases = append(cases, Case16L{Run: n31 + d, B: b}, Case16L{Run: n31 + d, B: b, Tail: []string{"00", "7f", "006162636465"}[(d+2)%3]})
+		}
+		cases = append(cases, Case16L{Head: "85", Run: n31 + 2, B: 0xff, Tail: "014142"})
+		n32 := (1 << 32) / 7
+		cases = append(cases, Case16L{Run: n32 - 1, B: 0x80, Tail: "00"}, Case16L{Run: n32 + 2, B: 0xff}, Case16L{Run: n32 + 2, B: 0x80, Tail: "006162636465"})
+	} else {
+		cases = append(cases, Case16L{Run: n31 + 2, B: 0x80}, Case16L{Run: n31 + 2, B: 0xff, Tail: "006162636465"})
+	}
+	ran, huge := int64(0), int64(0)
+	for i, c := range cases {
+		// the small cases are dealt round robin; the huge ones (one arena of hundreds of MB) all belong to the last shard
+		if (i < small && i%shards != shard) || (i >= small && shard != shards-1) {
+			continue
+		}
+		done := inflight("C16", "TestC16WordRuns", c)
+		info, v := Run16L(c)
+		done()
+		if v != nil {
+			st.Report(t, "TestC16WordRuns", c, v)
+		}
+		record16L(c, info)
+		ran++
+		if i >= small {
+			huge++
+		}
+	}
+	st.SetExhaustive("shift_counter_boundary_runs", map[string]any{"word_sizes": ShiftWords, "cases": ran, "cases_of_2^31/7_bytes_and_more": huge, "shards": shards})
+	st.SetExtra("word_runs_peak_resident_kB", peakRSSkB())
+}
+
 // =============================================================================================
 // C16: records whose body is tens of MiB, copied (newBuf=true) under different scheduling regimes
 
 func record16B(c Case16B, info Info16B) {
+	if info.NoArena {
+		vstat.For("C16").Inconclusivef("record with a body of %d bytes: no address space for the arena", c.L)
+		return
+	}
 	var h uint64
 	if info.NonTrivial() {
 		h = c.Hash()
@@ -1340,6 +1416,33 @@ func TestC16BigCopies(t *testing.T) {
 	}
 	st.SetExhaustive("big_copies", map[string]any{"body_lengths": lens, "regimes_GOMAXPROCS_busy": fmt.Sprint(regimes), "rounds": rounds, "cases": ran, "shards": shards})
 	st.SetExtra("big_copies_peak_resident_kB", peakRSSkB())
+}
+
+// TestC16HugeCopies: complete records whose body is 2 GiB and more - above MaxInt32 bytes, where a length kept in 32
+// bits, or a limit on what is worth copying, first matters - decoded by every function, newBuf=true included (the
+// decoder really duplicates the body). Sparse cases of the big-copies type: the input is address space, the process
+// holds one copy at a time (2 GiB resident for a body of 2^31 bytes). Same oracle as big_copies: error -> n == 0, success ->
+// the result compared in full with the input the moment the call returns. Quick: one body of 2^31 bytes; thorough:
+// 2^31-1, 2^31, 2^31+1 (over-long prefix, 3 bytes behind), 2^32+5.
+func TestC16HugeCopies(t *testing.T) {
+	st := vstat.For("C16")
+	cases := vstat.Pick(
+		[]Case16B{{L: 1 << 31, Seed: 11, Sparse: true, Rounds: 1}},
+		[]Case16B{{L: 1<<31 - 1, Seed: 7, Sparse: true, Rounds: 1}, {L: 1 << 31, Seed: 11, Sparse: true, Rounds: 1},
+			{L: 1<<31 + 1, Seed: 13, Pad: 2, More: 3, Sparse: true, Rounds: 1}, {L: 1<<32 + 5, Seed: 17, Sparse: true, Procs: 1, Rounds: 1}})
+	var lens []int
+	for _, c := range cases {
+		done := inflight("C16", "TestC16HugeCopies", c)
+		info, v := Run16B(c)
+		done()
+		if v != nil {
+			st.Report(t, "TestC16HugeCopies", c, v)
+		}
+		record16B(c, info)
+		lens = append(lens, c.L)
+	}
+	st.SetExhaustive("huge_copies", map[string]any{"body_lengths": lens, "cases": len(cases)})
+	st.SetExtra("huge_copies_peak_resident_kB", peakRSSkB())
 }
 
 // =============================================================================================
@@ -1656,7 +1759,7 @@ func TestReplay(t *testing.T) {
 		info, v := Run15Z(c)
 		vstat.For("C15").Report(t, "TestReplay", c, v)
 		record15Z(c, info)
-	case strings.Contains(env.Test, "BigCopies"):
+	case strings.Contains(env.Test, "BigCopies"), strings.Contains(env.Test, "HugeCopies"):
 		var c Case16B
 		if _, err := vstat.LoadReplay(p, &c); err != nil {
 			t.Fatalf("cannot load %s: %v", p, err)
@@ -1665,7 +1768,7 @@ func TestReplay(t *testing.T) {
 		info, v := Run16B(c)
 		vstat.For("C16").Report(t, "TestReplay", c, v)
 		record16B(c, info)
-	case strings.Contains(env.Test, "LongRuns"):
+	case strings.Contains(env.Test, "LongRuns"), strings.Contains(env.Test, "WordRuns"):
 		var c Case16L
 		if _, err := vstat.LoadReplay(p, &c); err != nil {
 			t.Fatalf("cannot load %s: %v", p, err)
